@@ -232,6 +232,64 @@ def run(ck):
         exp, obs = expected_reports(mo), observed_reports(dl)
         if exp != obs:       # other errors (an illegal dictionary key) may be reported besides
             ck.violation("types-named-by-keywords", "cycle-missed" if len(obs) < len(exp) else ("acyclic-flagged" if not exp else "report-differs"), text, repr(exp), repr(obs), signature={"names": "keywords"})
+    # 1j. a field inside a conditional region whose symbol another file defines or undefines: each file is preprocessed with the command line's symbols only
+    ccases = []
+    for _ in range(400 if ck.tier == "quick" else 4000):
+        n = rng.randrange(2, 5)
+        edges = [(a, b, rng.randrange(len(WRAPPERS))) for a in range(n) for b in range(n) if rng.random() < 0.35]
+        if not edges:
+            continue
+        cond = rng.sample(range(len(edges)), rng.choice([1, 1, 2]) if len(edges) > 1 else 1)
+        neg = {k: rng.random() < 0.5 for k in cond}
+        other = rng.choice(["#define X\nmodule Z\nstruct Unrelated {}\n", "#undef X\nmodule Z\nstruct Unrelated {}\n", "#define X\n#define Y\nmodule M\nstruct Unrelated { t: bool }\n"])
+        cli_x = rng.random() < 0.4                    # X given on the command line: it holds in every file, whatever another file says
+        kept = [e for k, e in enumerate(edges) if k not in cond or (neg[k] != cli_x)]
+        per = {i: [] for i in range(n)}
+        for k, (a, b, w) in enumerate(edges):
+            per[a].append((k, b, w))
+        lines = ["module M"]
+        for i in range(n):
+            lines.append("struct T%d {" % i)
+            fi = 0
+            for k, b, w in per[i]:
+                f = "    " + fld(fi, b, w)
+                fi += 1
+                lines += (["#if %sX" % ("!" if neg[k] else ""), f, "#endif"] if k in cond else [f])
+            lines.append("}")
+        text = "\n".join(lines) + "\n"
+        # the model sees the graph that is left; field numbers count the fields as written, so the expected notes are renumbered per source struct
+        order = rng.choice([0, 1])
+        ccases.append((text, other, order, cli_x, n, edges, cond, neg))
+    cm_lines, c_lines = [], []
+    for text, other, order, cli_x, n, edges, cond, neg in ccases:
+        per = {i: [] for i in range(n)}
+        for k, (a, b, w) in enumerate(edges):
+            per[a].append((k, b, w))
+        model = []
+        for i in range(n):
+            toks, fi = [], 0
+            for k, b, w in per[i]:
+                if k not in cond or (neg[k] != cli_x):
+                    toks.append("f %d %s" % (fi, WRAPPERS[w][1] % ("N %d" % b)))
+                fi += 1
+            model.append("S " + " ".join(toks))
+        cm_lines.append("cyc " + " / ".join(model))
+        files = [other, text] if order == 0 else [text, other]
+        c_lines.append("diags %s %s" % ("D:X" if cli_x else "-", " ".join(hx(t) for t in files)))
+    cm = core.run_model("cycles", cm_lines, chunk=5000)
+    co = core.run_impl("diags", c_lines, chunk=300, timeout=120)
+    ck.stream("fields-in-conditional-regions", description="containment graphs over 2-4 structs with some fields inside '#if X' or '#if !X', next to another file (before or after) that defines or undefines X, with and without -D X: "
+              "every file is preprocessed with the command line's symbols only; observable: the E032 list of the graph that is left")
+    for (text, other, order, cli_x, n, edges, cond, neg), mo, oo in zip(ccases, cm, co):
+        case = ("-D X\n" if cli_x else "") + ("\n-- next file --\n".join([other, text] if order == 0 else [text, other]))
+        ck.count("fields-in-conditional-regions", case, kind="cyclic" if mo != "none" else "acyclic")
+        dl = parse_diags(oo)
+        if dl is None:
+            ck.violation("fields-in-conditional-regions", "crash", case, mo, oo, signature={"observable": oo.split(" ")[0]})
+            continue
+        exp, obs = expected_reports(mo), observed_reports(dl)
+        if exp != obs:
+            ck.violation("fields-in-conditional-regions", "cycle-missed" if len(obs) < len(exp) else ("acyclic-flagged" if not exp else "report-differs"), case, repr(exp), repr(obs), signature={"symbols": "leaked" })
     # 2. alias graphs: each alias is a primitive, another alias, or an anonymous type over aliases
     forms = [("int32", []), ] 
     def alias_forms(n):
@@ -295,6 +353,20 @@ def run(ck):
                   "the same base-list assignments with every interface named I, each in a module and file of its own; observable: rejected with E032 or accepted, no crash or hang")
     _graph_family(ck, "inheritance-loops", icases, itext, lambda c: [[b for (a, b) in c[1] if a == i] for i in range(c[0])], {"E032"},
                   "interfaces with every base-list assignment (incl. diamonds and self-inheritance); observable: rejected with E032 or accepted, no crash or hang")
+    # the same graphs with doc comments that link to operations through the interfaces of the graph (own, inherited, missing), and a struct that links to them too
+    def itext_links(c):
+        n, es = c
+        out = ["module M"]
+        for i in range(n):
+            bases = [b for (a, b) in es if a == i]
+            j = (i + 1) % n
+            out.append("/// See {@link I%d::op%d}, {@link I%d::op%d}, {@link I%d::nosuch} and {@link op%d}.\n/// @see I%d::op%d\ninterface I%d%s {\n    /// {@link I%d::op%d} {@link I%d::missing}\n    op%d()\n}"
+                       % (i, i, i, j, i, i, j, i, i, (" : " + ", ".join("I%d" % b for b in bases)) if bases else "", i, j, j, i))
+        out.append("/// {@link I0::op%d} {@link I%d::op0} {@link I0::zz}\nstruct Links {}" % (n - 1, n - 1))
+        return "\n".join(out) + "\n"
+    links = [c for c in icases if c[0] <= 3] + rng.sample([c for c in icases if c[0] > 3], min(800 if ck.tier == "quick" else 8000, len([c for c in icases if c[0] > 3])))
+    _graph_family(ck, "inheritance-loops-with-links", links, itext_links, lambda c: [[b for (a, b) in c[1] if a == i] for i in range(c[0])], {"E032"},
+                  "the same base-list assignments with doc comments that link to operations through the interfaces of the graph (own, inherited, missing); observable: rejected with E032 or accepted, no crash or hang")
     ck.extra["exhaustive"] = True
     ck.extra["rule"] = ("containment: all graphs over <= 2 nodes with every wrapper on every edge (exhaustive), all 512 graphs over 3 nodes and %s over 4 nodes with sampled wrappers/kinds, random graphs up to 10 nodes; "
                         "alias graphs: all assignments over <= 3 aliases, sampled over 4; inheritance: all graphs over <= 3 interfaces, %s over 4. Distinct by program text." % (("all 65536" if ck.tier == "thorough" else "6000 sampled"), ("all 65536" if ck.tier == "thorough" else "4000 sampled")))
